@@ -83,11 +83,11 @@ func derefUses(v ssa.Value) []ssa.Instruction {
 // the location with access path `path` (or SSA value v) is known non-nil.
 func nilGuarded(fn *ssa.Function, use ssa.Instruction, v ssa.Value, path string) bool {
 	for _, ce := range ir.DominatingConds(fn, use.Block()) {
-		x, nilWhenTrue, ok := ir.NilCheck(ce.If.Cond)
+		x, nilWhenTrue, ok := ir.NilCheck(ce.RawCond)
 		if !ok {
 			continue
 		}
-		succTrue := fn.Blocks[ce.Edge.From].Succs[0].Index == ce.Edge.To
+		succTrue := ce.RawTruth
 		nonNil := succTrue != nilWhenTrue
 		if !nonNil {
 			continue
@@ -120,11 +120,11 @@ func (c *Ctx) guardedAtCallers(fn *ssa.Function, f *types.Var, depth int) bool {
 		}
 		ok := false
 		for _, ce := range ir.DominatingConds(caller, in.Site.Block()) {
-			x, nilWhenTrue, isNC := ir.NilCheck(ce.If.Cond)
+			x, nilWhenTrue, isNC := ir.NilCheck(ce.RawCond)
 			if !isNC {
 				continue
 			}
-			succTrue := caller.Blocks[ce.Edge.From].Succs[0].Index == ce.Edge.To
+			succTrue := ce.RawTruth
 			if succTrue == nilWhenTrue {
 				continue // nil on this edge
 			}
